@@ -256,7 +256,8 @@ pub fn oracle(c: &DateCase, obs: &mut Obs) -> Vec<Violation> {
             } else {
                 (99, 99)
             };
-            let must_reject = !sign_ok || !digits || h > 23 || m > 59;
+            // 'up to 14 hours' is what both 13C and 13D document for the UTC offset
+            let must_reject = !sign_ok || !digits || h > 14 || m > 59;
             let must_accept = sign_ok && digits && h <= 13 && m <= 59;
             if must_accept {
                 obs.nontrivial_str(&format!("{f}|{content}"));
@@ -295,7 +296,7 @@ pub fn oracle(c: &DateCase, obs: &mut Obs) -> Vec<Violation> {
 pub fn run(ctx: &Ctx) {
     ctx.add_rule("exhaustive: all 1,000,000 six-digit strings through each of the 15 date-bearing fields (embedded in an otherwise fixed valid content); all 10,000 HHMM strings through 13C and 13D; all 2 x 10,000 signed offsets through 13C and 13D; all 10,000 MMDD entry dates through 61; plus non-digit six-character near misses; oracle: own proleptic Gregorian calendar; non-trivial = the string denotes a real date/time; distinct by (field, content)");
     ctx.exhaustive("10^6 six-digit strings x 15 fields; 10^4 HHMM x 2 fields; 2 x 10^4 offsets x 2 fields; 10^4 MMDD x field 61");
-    ctx.assume("offset hours 14..23 are undetermined (the library documents 'up to 14 hours'); Feb 29 is judged with the year the field itself reports");
+    ctx.assume("offset hours 15..23 must be rejected (the library documents 'up to 14 hours' for 13C and 13D), 14:01..14:59 are undetermined; Feb 29 is judged with the year the field itself reports");
     let to_json = |c: &DateCase| serde_json::to_value(c).unwrap();
     // shards: field x first two digits
     let nsh = DATE_FIELDS.len() * 100;
